@@ -20,6 +20,7 @@ int                        g_nservers = 1;
 int                        g_chunk    = 0;
 std::vector<int>           g_wscript_default;
 std::vector<int>           g_wscript_default_udp;   // same for new UDP sockets
+bool                       g_v6src_global = false;  // IPv6 source addresses are global (2001:db8::) instead of unique-local
 long                       g_io_events = 0;
 static int                 g_nextfd   = 100;
 extern int                 g_plumb;
@@ -355,6 +356,7 @@ static int v_getsockname(ares_socket_t fd, struct sockaddr *address, ares_sockle
     sin6.sin6_family = AF_INET6;
     unsigned char *b = (unsigned char *)&sin6.sin6_addr;
     b[0] = 0xfd; b[1] = 9; b[15] = (unsigned char)g_srcip;
+    if (g_v6src_global) { b[0] = 0x20; b[1] = 0x01; b[2] = 0x0d; b[3] = 0xb8; }   // 2001:db8::x: same policy label as the 2001:: answers
     if (*address_len < (ares_socklen_t)sizeof sin6) { errno = EINVAL; return -1; }
     memcpy(address, &sin6, sizeof sin6);
     *address_len = sizeof sin6;
